@@ -1,6 +1,6 @@
 (* C09 - STATICS is complete and sorted; lookup by name is exact.  Theorems only. *)
 From Coq Require Import Lia Permutation.
-From Ructe Require Import Nom Utf8 Md5 Emit Tables Static StaticProofs MapProofs Build ScriptNI WalkNames.
+From Ructe Require Import Nom Utf8 Md5 Emit Tables Static StaticProofs MapProofs Build ScriptNI PlanPaths WalkNames.
 Local Open Scope list_scope.
 
 Section C09.
@@ -48,6 +48,15 @@ Section C09.
     (forall dir es,
        st (add_files uni_esc uni_alnum mm s dir es) = run (ops ++ ops_hashed dir (direct_files es))).
   Proof. exact (walks_extend_a_run uni_esc uni_alnum mm header). Qed.
+
+  (* ... and for a walk over a well-formed directory (every listing holds distinct, non-empty names without '/', as a file
+     system gives them) the published names are pairwise distinct, so STATICS of a fresh StaticFiles after add_files_as
+     lists exactly prefix + "/" + relative path of every file below the directory, each once *)
+  Theorem add_files_as_lists_every_file_once : forall s fuel dir to es, st s = empty_statics header ->
+    S (dmax es) <= fuel -> named (S (dmax es)) es = true -> wf_es es ->
+    Permutation (map fst (names_r (st (add_files_as uni_esc uni_alnum mm fuel s dir to es))))
+                (map (pfx to) (rels (S (dmax es)) es)).
+  Proof. exact (walk_statics_complete uni_esc uni_alnum mm header). Qed.
 End C09.
 
 (* the restriction to distinct url names is visible: two files with different identifiers and the
@@ -74,9 +83,28 @@ Example walks_example :
   map fst (names_r (st (add_files (fun _ => false) (fun _ => false) MNone s0 (b "st") es))) = [b "z-ndTkYSaM.css"].
 Proof. vm_compute. repeat split; reflexivity. Qed.
 
+(* the hypotheses of add_files_as_lists_every_file_once hold for the tree of walks_example *)
+Example a_well_formed_tree :
+  let es := [(b "z.css", File (b "x")); (b "m", Dir [(b "a.js", File [])])] in
+  wf_es es /\ named (S (dmax es)) es = true.
+Proof.
+  cbv zeta. split; [|vm_compute; reflexivity].
+  assert (Hin : wf_es [(b "a.js", File [])]).
+  { constructor.
+    - cbn [map fst]. constructor; [intros []|constructor].
+    - intros n x [[= <- <-]|[]]. vm_compute. intuition discriminate.
+    - intros n sub [[= ]|[]]. }
+  constructor.
+  - cbn [map fst]. constructor; [|constructor; [intros []|constructor]]. intros [E|[]]. vm_compute in E. discriminate.
+  - intros n x [[= <- <-]|[[= <- <-]|[]]]; vm_compute; intuition discriminate.
+  - intros n sub [[= ]|[[= <- <-]|[]]]. exact Hin.
+Qed.
+
 Redirect "assumptions/C09.statics_sorted" Print Assumptions statics_sorted.
 Redirect "assumptions/C09.statics_complete" Print Assumptions statics_complete.
 Redirect "assumptions/C09.binary_search_correct" Print Assumptions binary_search_correct.
 Redirect "assumptions/C09.get_exact" Print Assumptions get_exact.
 Redirect "assumptions/C09.directory_walks_are_addition_sequences" Print Assumptions directory_walks_are_addition_sequences.
 Redirect "assumptions/C09.walks_example" Print Assumptions walks_example.
+Redirect "assumptions/C09.add_files_as_lists_every_file_once" Print Assumptions add_files_as_lists_every_file_once.
+Redirect "assumptions/C09.a_well_formed_tree" Print Assumptions a_well_formed_tree.
